@@ -8,6 +8,7 @@ mod comp;
 mod conn;
 mod conngen;
 mod dbg;
+mod e2e;
 mod gen_pure;
 mod pure;
 mod util;
@@ -25,7 +26,9 @@ fn main() {
             let cases: usize = args.get(4).and_then(|s| s.parse().ok()).unwrap_or(100);
             let out = std::io::stdout();
             let mut out = std::io::BufWriter::new(out.lock());
-            let ok = if profile == "state-exhaustive" {
+            let ok = if profile.starts_with("e2e-") {
+                e2e::generate(profile, seed, cases, &mut out)
+            } else if profile == "state-exhaustive" {
                 comp::gen_state_exhaustive(&mut out);
                 true
             } else if profile == "flow" {
@@ -71,6 +74,9 @@ fn main() {
                     }
                     if ws[0].starts_with("cn_") {
                         return cn.handle(&ws);
+                    }
+                    if ws[0] == "e2e_run" {
+                        return e2e::handle(&ws);
                     }
                     if ws[0].starts_with("fc_") || ws[0].starts_with("stt_") {
                         return cmp.handle(&ws);
